@@ -756,7 +756,8 @@ def _constant_guided(inst, unit, fn, case, assertions, cap=600):
             doms.append(shape.domain()[:6] or [None])
         else:
             key = name if isinstance(shape, Prim) else name + '.value'
-            doms.append([shape.concretise(name, {key: v}) for v in vals])
+            # the constants of the condition first, then the unit's declared representative inputs
+            doms.append([shape.concretise(name, {key: v}) for v in vals] + list(shape.domain()[:24]))
     n = 0
     for combo in itertools.product(*doms):
         n += 1
